@@ -49,6 +49,8 @@ def dyadic_value(s, E, M):
 
 def run(ctx):
     repo.setup()
+    from ..core import quiet_logging
+    quiet_logging()
     from TotalDepth.BIT import ReadBIT
     from TotalDepth.RP66V1.core import File as RFile
     from TotalDepth.RP66V1.core import RepCode as RRep
